@@ -457,7 +457,11 @@ def matchfile_from_alignment(
                 version=version,
                 anchor=snote.Anchor,
                 note=note,
-                ornament_type=[ornament_type],
+                ornament_type=(
+                    list(ornament_type)
+                    if isinstance(ornament_type, (list, tuple))
+                    else [ornament_type]
+                ),
             )
 
             note_lines.append(ornament_line)
